@@ -480,6 +480,10 @@ func runC20(c *worker.Ctx) {
 	terra := c.T.Bool(1, 3)
 	r := drawResources(c)
 	faulty := c.T.Bool(1, 2)
+	// an outage rather than a glitch: an endpoint that has failed keeps failing
+	// the same way for every later request (retries included)
+	outage := faulty && c.T.Bool(1, 3)
+	down := map[string]simnet.APIFault{}
 	var s *ssched.Sched
 	var snips *snippet.Snippets
 	var ferr error
@@ -614,7 +618,18 @@ func runC20(c *worker.Ctx) {
 			})
 		} else {
 			api = simnet.NewFastlyAPI(r, func(path string, n int) simnet.APIFault {
+				if f, ok := down[path]; ok && !apiHealthy {
+					// an outage: this endpoint keeps answering the way it did
+					return f
+				}
 				f := simnet.APIFault{Kind: "ok", Latency: time.Duration(c.T.Draw(400)) * time.Millisecond}
+				if outage {
+					defer func() {
+						if f.Kind != "ok" && f.Kind != "slow-within-timeout" {
+							down[path] = f
+						}
+					}()
+				}
 				if faulty && !apiHealthy && c.T.Bool(1, 6) {
 					switch c.T.Draw(7) {
 					case 0:
